@@ -364,6 +364,28 @@ func ruleF8size(c *Ctx) {
 		}
 		var p *pathInfo
 		l := p.linearOf(ret.Results[0])
+		// a summing phase of its own: size = sum(enc, operands) — look at what that helper adds up
+		for round := 0; round < 2; round++ {
+			for v, coef := range l.Terms {
+				call, ok := v.(*ssa.Call)
+				if !ok || coef != 1 || call.Call.IsInvoke() {
+					continue
+				}
+				if sc := call.Call.StaticCallee(); sc == nil || sc.Name() == "GetOutputSize" || sc.Name() == "GetPrefixSize" {
+					continue
+				}
+				rs := helperResults(call)
+				if len(rs) != 1 {
+					continue
+				}
+				inner := p.linearOf(rs[0])
+				delete(l.Terms, v)
+				for iv, ic := range inner.Terms {
+					l.Terms[iv] += ic
+				}
+				l.K += inner.K
+			}
+		}
 		for v, coef := range l.Terms {
 			if call, ok := v.(*ssa.Call); ok && coef == 1 {
 				name := ""
